@@ -170,7 +170,16 @@ func genSigOps(r *rand.Rand, n int) []string {
 			k2 := genEcScalar(r, alg)
 			bad := &ecKey{alg: alg, crv: k.crv, curve: k.curve, d: k.d, x: k2.x, y: k.y}
 			bform := 1 + r.Intn(3)
-			switch r.Intn(4) {
+			switch r.Intn(5) {
+			case 4: // compressed public key whose x is no abscissa of the curve (x+1, x+2, … mostly are not), or >= p
+				bad.x = new(big.Int).Add(k.x, big.NewInt(int64(1+r.Intn(3))))
+				if r.Intn(4) == 0 {
+					bad.x = new(big.Int).Sub(new(big.Int).Lsh(big.NewInt(1), uint(8*k.size())), big.NewInt(int64(1+r.Intn(5))))
+					if alg == iana.AlgorithmES512 {
+						bad.x = new(big.Int).Sub(new(big.Int).Lsh(big.NewInt(1), 521), big.NewInt(1))
+					}
+				}
+				bform = 3
 			case 0:
 				bad.x = new(big.Int).Add(k.x, big.NewInt(1))
 			case 1, 2: // the last 1, 8, size-1 octets of the true coordinate, or zero; private key with public members
